@@ -715,11 +715,13 @@ func (f *HashFile) UnmarshalText(b []byte) error {
 	sc.Scan()
 	sum := strings.TrimPrefix(sc.Text(), "h1:")
 	for sc.Scan() {
-		li := strings.SplitN(sc.Text(), "h1:", 2)
-		if len(li) != 2 {
+		// The hash does not contain a colon; a file name may contain "h1:".
+		line := sc.Text()
+		i := strings.LastIndex(line, "h1:")
+		if i == -1 {
 			return ErrChecksumFormat
 		}
-		*f = append(*f, struct{ N, H string }{strings.TrimSpace(li[0]), li[1]})
+		*f = append(*f, struct{ N, H string }{strings.TrimSpace(line[:i]), line[i+len("h1:"):]})
 	}
 	if sum != f.Sum() {
 		return ErrChecksumMismatch
